@@ -18,7 +18,7 @@ PLAN = {
     "thorough": {"cases": 6000, "hashseeds": 8, "shards": 2, "timeout": 3000, "min_nontrivial": 2000},
 }
 RULE = ("one random 2-TBN template per case (kinds: hmm, random 2-3 variables, two interface nodes, inter-slice edge to "
-        "another variable, variable without intra-slice edge, 4 variables; cards 2-3 (2-4 thorough); 1-4 interface "
+        "another variable, variable without intra-slice edge, 4 (thorough: also 5) variables; cards 2-3 (2-4 thorough); 1-4 interface "
         "nodes; zeros / deterministic columns in 30%; string state names in 20%; shuffled edge, CPD and parent order) "
         "x 7 (10 thorough) queries: horizon T in 0..4 (0..6), 1-2 variables of one slice (70%) or 2-4 variables in "
         "2-3 slices (30%), evidence styles none / random / interface-heavy / one variable in every slice / only later "
@@ -67,7 +67,7 @@ MANIFEST = {
     "technique": "runtime monitoring with a reference-model oracle over generated templates and queries",
 }
 
-NAMES = ["A", "B", "C", "D"]
+NAMES = ["A", "B", "C", "D", "E"]
 
 
 # =========================================================================== generator
@@ -80,13 +80,13 @@ def gen_template(rng, tier, kind=None):
     big = tier == "thorough"
     if kind is None:
         kind = rng.choice(["hmm", "rand", "rand", "rand", "rand", "two_iface", "two_iface", "cross", "cross",
-                           "isolated", "rand4", "rand4" if big else "rand"])
-    n = {"hmm": 2, "rand4": 4, "isolated": rng.choice([1, 2, 3])}.get(kind, rng.choice([2, 3, 3]))
+                           "isolated", "rand4", "rand5" if big else "rand"])
+    n = {"hmm": 2, "rand4": 4, "rand5": 5, "isolated": rng.choice([1, 2, 3])}.get(kind, rng.choice([2, 3, 3]))
     vs = NAMES[:n]
     cards = (2, 2, 3) if not big else (2, 2, 3, 3, 4)
     card = {v: rng.choice(cards) for v in vs}
-    if kind == "rand4":
-        card = {v: rng.choice((2, 2, 3)) for v in vs}
+    if kind in ("rand4", "rand5"):
+        card = {v: rng.choice((2, 2, 3) if kind == "rand4" else (2, 2, 2, 3)) for v in vs}
     order = vs[:]
     rng.shuffle(order)
     intra = []
